@@ -80,6 +80,14 @@ def plan(tier, seed):
     if tier == "quick":
         for osh, ssh in spaces.shape_pairs(4, 3):
             out.append({"slice": "plain:P4x3", "family": "plain", "osh": osh, "ssh": ssh, "costs": QUICK_MENU})
+        # three object leaves on the 10-leaf species caterpillar (depth 9), transfers forbidden, full losses at 3: a finite
+        # stand-in for "infinite" that is too small for deep species trees shows here (general solver only)
+        cat10 = None
+        for _ in range(9):
+            cat10 = (cat10, None)
+        for osh in spaces.binary_shapes(3):
+            out.append({"slice": "plain:P3xcaterpillar10/hgt-inf", "family": "plain", "osh": osh, "ssh": cat10,
+                        "costs": [(0, 1, INF, 3, 1)], "algos": ["lca", "thl"]})
         out += L.split_plan("ordered:O3x2x3", spaces.shape_pairs(3, 2), o3, 150, {"family": "ordered", "costs": QUICK_MENU[:4]})
         out += L.split_plan("unordered:U3x3x2", spaces.shape_pairs(3, 3), u2, 150, {"family": "unordered", "costs": QUICK_MENU[:4]})
         out += L.split_plan("unordered:U4x2x2", spaces.shape_pairs(4, 2, min_obj=4), u2, 150,
@@ -248,7 +256,7 @@ def run_shard(shard, tier, seed):
         for leafmap in spaces.assignments(O, S):
             n_inputs += 1
             for costs in shard["costs"]:
-                for algo in PLAIN_ALGOS:
+                for algo in (shard.get("algos") or PLAIN_ALGOS):
                     for policy in (("ALL",) if algo == "lca" else ("ALL", "ANY")):
                         n_eval += 1
                         bad, k, tr = check_plain(algo, O, S, leafmap, costs, policy)
